@@ -1,0 +1,48 @@
+//! Verification hooks: named yield/trace points used by external runtime monitors.
+//!
+//! Only compiled with the `verif-hooks` feature (off by default). Without a registered hook every point is a no-op.
+
+use std::cell::RefCell;
+use std::future::Future;
+use std::pin::Pin;
+use std::sync::{Arc, RwLock};
+
+/// Future returned by a hook.
+pub type HookFuture = Pin<Box<dyn Future<Output = ()> + Send>>;
+/// A hook is called with the name of the point that was reached; the library awaits the returned future.
+pub type Hook = Arc<dyn Fn(&'static str) -> Option<HookFuture> + Send + Sync>;
+
+static GLOBAL: RwLock<Option<Hook>> = RwLock::new(None);
+
+thread_local! {
+	static LOCAL: RefCell<Option<Hook>> = const { RefCell::new(None) };
+}
+
+/// Install (or remove) the process-wide hook.
+pub fn set_global_hook(hook: Option<Hook>) {
+	*GLOBAL.write().expect("not poisoned") = hook;
+}
+
+/// Install (or remove) the hook of the current thread; it takes precedence over the global one.
+pub fn set_thread_hook(hook: Option<Hook>) {
+	LOCAL.with(|l| *l.borrow_mut() = hook);
+}
+
+fn current() -> Option<Hook> {
+	LOCAL.with(|l| l.borrow().clone()).or_else(|| GLOBAL.read().expect("not poisoned").clone())
+}
+
+/// A named point in an async context where the monitor may inject a delay.
+pub async fn point(name: &'static str) {
+	let fut = current().and_then(|h| h(name));
+	if let Some(fut) = fut {
+		fut.await;
+	}
+}
+
+/// A named point in a sync context; the returned future (if any) is dropped.
+pub fn trace(name: &'static str) {
+	if let Some(h) = current() {
+		let _ = h(name);
+	}
+}
